@@ -6,16 +6,16 @@ From Bfe Require Import lib.Val lib.Bytes model.Doh proofs.DohProofs run.RunC56.
 Import ListNotations.
 Open Scope Z_scope.
 
-(* Address family and prefix length.  Whenever a request (GET or POST, any codec behaviour o) is forwarded, the
-   appended client-subnet option has scope 0 and: for an IPv4 client address (4 bytes, or 16 bytes IPv4-mapped)
-   family 1, source prefix 32 and exactly the 4 IPv4 bytes; for any other (16-byte) address family 2, prefix 128
-   and the 16 address bytes.  The client address is Request.ClientAddr if set, else Request.RemoteAddr. *)
+(* Address family and prefix length.  Whenever a request (GET or POST, any codec behaviour o) is forwarded with an
+   appended option, the request has a client address cip (Request.ClientAddr if set, else Request.RemoteAddr), the
+   option has scope 0 and: for an IPv4 cip (4 bytes, or 16 bytes IPv4-mapped) family 1, source prefix 32 and exactly
+   the 4 IPv4 bytes; for any other (16-byte) address family 2, prefix 128 and the 16 address bytes. *)
 Theorem C56_family_prefix : forall (o : oracle) (q : dreq) canon ne no udp ttl (e : ecs),
   request_to_dns_msg o q = Forwarded canon ne no udp ttl e ->
-  e_scope e = 0 /\
-  match to4 (client_ip q) with
+  exists cip, client_ip q = Some cip /\ e_scope e = 0 /\
+  match to4 cip with
   | Some a => e_family e = 1 /\ e_mask e = 32 /\ e_addr e = a /\ length a = 4%nat
-  | None => e_family e = 2 /\ e_mask e = 128 /\ e_addr e = client_ip q /\ length (client_ip q) = 16%nat
+  | None => e_family e = 2 /\ e_mask e = 128 /\ e_addr e = cip /\ length cip = 16%nat
   end.
 Proof. exact family_prefix. Qed.
 Print Assumptions C56_family_prefix.
@@ -24,10 +24,26 @@ Print Assumptions C56_family_prefix.
    exactly one more additional record, the OPT RR carrying the option for the client address. *)
 Theorem C56_message_preserved : forall (o : oracle) (q : dreq) canon ne no udp ttl (e : ecs),
   request_to_dns_msg o q = Forwarded canon ne no udp ttl e ->
-  exists buf p, code_buffer q = Some buf /\ unpack o buf = Some p /\ canon = p_canon p
-                /\ ne = p_nextra p + 1 /\ no = p_nopt p + 1 /\ client_subnet (client_ip q) = Some e.
+  exists buf p cip, code_buffer q = Some buf /\ unpack o buf = Some p /\ canon = p_canon p
+                /\ ne = p_nextra p + 1 /\ no = p_nopt p + 1
+                /\ client_ip q = Some cip /\ client_subnet cip = Some e.
 Proof. exact forwarded_inv. Qed.
 Print Assumptions C56_message_preserved.
+
+(* Without Request.RemoteAddr (and only then) the parsed message is forwarded with nothing appended. *)
+Theorem C56_no_remote_plain : forall (o : oracle) (q : dreq) canon ne no,
+  request_to_dns_msg o q = ForwardedPlain canon ne no ->
+  d_remote q = None /\ exists buf p, code_buffer q = Some buf /\ unpack o buf = Some p /\ canon = p_canon p
+                /\ ne = p_nextra p /\ no = p_nopt p.
+Proof. exact plain_inv. Qed.
+Print Assumptions C56_no_remote_plain.
+
+(* A POST body whose reader fails (e.g. body shorter than Content-Length: io.ErrUnexpectedEOF) before limit bytes
+   were delivered is rejected, whatever the delivered prefix looks like. *)
+Theorem C56_read_error_rejected : forall (o : oracle) (q : dreq) (k : Z),
+  d_method q = s_POST -> d_fail q = Some k -> k < d_limit q -> request_to_dns_msg o q = Rejected.
+Proof. exact read_error_rejected. Qed.
+Print Assumptions C56_read_error_rejected.
 
 (* Malformed requests are rejected: no / several / undecodable dns= values, other methods, or bytes the codec
    does not parse. *)
@@ -58,11 +74,12 @@ Theorem C56_single_opt_refuted :
 Proof. exact second_opt_refuted. Qed.
 Print Assumptions C56_single_opt_refuted.
 
-(* The whole specification (doh_spec: reject exactly the malformed/oversized, otherwise client message + one OPT
+(* The whole specification (doh_spec: reject exactly the malformed/oversized/incompletely read, otherwise client message + one OPT
    RR, exactly one OPT RR in total, option matching the client address) holds of the model outside the two
    finding classes, for every client address of 4 or 16 bytes. *)
 Theorem C56_spec_partial : forall (o : oracle) (q : dreq),
-  valid_ip (client_ip q) = true -> kf_truncated o q = false -> kf_second_opt o q = false ->
+  match client_ip q with Some cip => valid_ip cip | None => true end = true ->
+  kf_truncated o q = false -> kf_second_opt o q = false ->
   doh_spec o q (request_to_dns_msg o q) = true.
 Proof. exact model_meets_spec. Qed.
 Print Assumptions C56_spec_partial.
